@@ -170,6 +170,14 @@ def gen_plan(seed, idx):
             if k in ("masked", "strided") and r.chance(0.2):
                 a["ro"] = True      # the view is taken from a read-only array
         args.append(a)
+    # a scalar argument that is not a value of its own but an element reference into one of the argument arrays
+    # (va -= va[3]: for class-type elements a[i] is a reference into the array's storage, not a copy)
+    for i, a in enumerate(args):
+        if "kind" in a:
+            continue
+        cands = [j for j in range(i) if PT.is_array(e["args"][j]) and PT.ARRAYS[e["args"][j]].name == a["t"] and args[j]["kind"] != "alias"]
+        if cands and r.chance(0.2 if inplace else 0.05):
+            a["elemref"] = [r.choice(cands), r.below(1 << 20)]
     # a deliberately mismatched operand must not hit the unmasked length of a masked left-hand side by accident
     # (that length is legal and selects through the mask: it is the 'unmasked' kind, generated on purpose above)
     if args and args[0].get("kind") == "masked":
@@ -325,6 +333,11 @@ class World:
         for i, a in enumerate(plan["args"]):
             t = a["t"]
             if not PT.is_array(t):
+                er = a.get("elemref")
+                if er and len(self.args[er[0]]) > 0:
+                    src = self.args[er[0]]
+                    self.args.append(src[er[1] % len(src)])
+                    continue
                 v = PT.TYPES[t].generate(Rng(a["cs"]), mode)
                 if affine and t.startswith("M"):
                     v = make_affine(PT.TYPES[t], v)
@@ -472,7 +485,7 @@ def entry_label(e):
 
 
 def kinds_label(plan):
-    return ",".join(a.get("kind", "scalar") for a in plan["args"])
+    return ",".join(a.get("kind", "elemref" if a.get("elemref") else "scalar") for a in plan["args"])
 
 
 def o2_positions(plan, trace, n):
@@ -835,6 +848,8 @@ def execute(plan, explicit=None):
         fired["probe.readonly_operand"] = 1
     if "strided" in kinds:
         fired["probe.strided_operand"] = 1
+    if any(a.get("elemref") for a in plan["args"]):
+        fired["probe.scalar_is_element_reference_of_an_operand"] = 1
     if any(a.get("ro") for a in plan["args"]):
         fired["probe.view_of_readonly_array_as_operand"] = 1
     out["hash"] = h.hexdigest()
